@@ -24,14 +24,14 @@ func init() {
 
 	c08 := &tcProfile{Prop: "C08", Reimport: 1, Others: 6, Steps: [2]int{60, 220}, Faults: true, Challenge: 2, Hooks: 20, BadRcpt: 12}
 	core.Register(&core.Scenario{ID: "C08", Level: "exploration", Run: runTwoChain(c08), Components: comp, Assumptions: assume,
-		Rule: "the full bridge: real L1 and L2 nodes, users on both sides, 1-3 racing executors, proposer, challenger forcing re-proposal, claimers, third-party sends, over a simulated network with loss / duplication / delay / reordering / partitions and crash-restart of either node, then a fault-free drain; oracle: both lock-step models plus the peg equation escrow = L2 supply + deposits in flight + unpaid withdrawals (from parsed events and public queries) after every block of either chain, and after the drain every claim paid exactly once, escrow = supply, combined holdings unchanged; non-trivial = >=2 deposits, >=1 withdrawal and >=1 successful claim",
-		QuickRuns: 1000, QuickSecs: 75, ThoroughRuns: 15000, ThoroughSecs: 800,
+		Rule: "the full bridge: real L1 and L2 nodes, users on both sides, 1-3 racing executors, proposer, challenger forcing re-proposal, claimers, third-party sends, other rollups' bridges on the same L1 (created before and after this one, with their own deposits, proposals, deletions, claims and role changes), over a simulated network with loss / duplication / delay / reordering / partitions and crash-restart of either node, client traffic on discarded branches, aborted optimistic executions, restarts of either chain from its exported genesis, then a fault-free drain; oracle: both lock-step models plus the peg equation escrow = L2 supply + deposits in flight + unpaid withdrawals (from parsed events and public queries) after every block of either chain, and after the drain every claim paid exactly once, escrow = supply, combined holdings unchanged; non-trivial = >=2 deposits, >=1 withdrawal and >=1 successful claim",
+		QuickRuns: 1500, QuickSecs: 75, ThoroughRuns: 20000, ThoroughSecs: 800,
 		RequiredProbes: []string{"drain.completed", "e2e.claim-succeeded", "deposit.refunded", "challenge.deleted", "mempool.redundant-relay-filtered"}})
 
 	c04 := &tcProfile{Prop: "C04", Reimport: 1, Others: 5, Steps: [2]int{80, 300}, Faults: false, Challenge: 1, BigTrees: true, BigAmts: true, Hooks: 15, BadRcpt: 25, WWithdraw: 16, WPropose: 1}
 	core.Register(&core.Scenario{ID: "C04", Level: "exploration", Run: runTwoChain(c04), Components: comp, Assumptions: assume,
-		Rule: "the full bridge with a faithful executor whose trees are built from the L2 initiate_token_withdrawal events only (independent prover, both odd-node rules): user withdrawals and refund withdrawals (malformed / blocked recipients, failing hooks) with amounts from {1, typical, 2^62, 2^63-1, 2^63, 2^64-1, 2^64+}, several denoms, upper-case bech32 recipients, trees of 1-33 leaves with every leaf claimed, challenger deletion with re-proposal; oracle: every recorded withdrawal with positive amount and valid L1 recipient is finalised exactly once within the drain budget; non-trivial = >=2 deposits, >=1 withdrawal and >=1 successful claim",
-		QuickRuns: 600, QuickSecs: 75, ThoroughRuns: 15000, ThoroughSecs: 800,
+		Rule: "the full bridge with a faithful executor whose trees are built from the L2 initiate_token_withdrawal events only (independent prover, both odd-node rules): user withdrawals and refund withdrawals (malformed / blocked recipients, failing hooks) with amounts from {1, typical, 2^62, 2^63-1, 2^63, 2^64-1, 2^64+}, several denoms, upper-case bech32 and L1 module-account recipients, arbitrary output version bytes, other rollups' bridges on the same L1, restarts from exported genesis, trees of 1-33 leaves with every leaf claimed, challenger deletion with re-proposal; oracle: every recorded withdrawal with positive amount and valid L1 recipient is finalised exactly once within the drain budget; non-trivial = >=2 deposits, >=1 withdrawal and >=1 successful claim",
+		QuickRuns: 1500, QuickSecs: 75, ThoroughRuns: 15000, ThoroughSecs: 800,
 		RequiredProbes: []string{"drain.completed", "e2e.claim-succeeded", "deposit.refunded", "claim.tree-size>=9", "claim.last-leaf-of-odd-tree"}})
 
 	// C06 and C02 get a share of two-chain runs: concurrent relays / claims over the faulty network, with the
@@ -77,8 +77,8 @@ func init() {
 		return v
 	}
 	core.Register(&core.Scenario{ID: "C16", Level: "exploration", Run: runC16, Components: comp, Assumptions: append(append([]string{}, assume...), "the re-imported chain starts at the next height; the L2's cached L1 validator set and per-height history are not part of genesis (documented exclusions)"),
-		Rule: "random two-chain histories with all message types (several bridges, deleted and re-proposed outputs, refunded deposits, removed validators, several batch-info generations, parameter changes) in which either chain is, at scheduler-chosen points and repeatedly, exported, validated and re-initialised on a fresh node at the next height; oracle: the second export is byte-identical per module, the L2's InitChain validator updates equal the bonded set, and the run continues on the re-imported node with the lock-step model still attached, so every later response, event and query must equal what the original chain would have produced (after a re-import every model deviation counts); non-trivial = >=2 deposits, >=1 withdrawal, >=1 successful claim",
-		QuickRuns: 1000, QuickSecs: 75, ThoroughRuns: 15000, ThoroughSecs: 800,
+		Rule: "two runs in three: random two-chain histories with all message types (several bridges, deleted and re-proposed outputs, refunded deposits, removed validators, several batch-info generations, parameter changes) in which either chain is, at scheduler-chosen points and repeatedly, exported, validated and re-initialised on a fresh node at the next height; oracle: the second export is byte-identical per module, the L2's InitChain validator updates equal the bonded set, and the run continues on the re-imported node with the lock-step model still attached, so every later response, event and query must equal what the original chain would have produced (after a re-import every model deviation counts); one run in three is a single-chain L1 or L2 history with the broader message mix of those worlds (several bridges, bursts of >100 outputs, maximum-length denoms, validator / parameter / executor traffic) restarted from exported genesis before about 10% of the blocks; an exported genesis edited to carry a non-positive finalization period must be refused; non-trivial = at least one restart from exported genesis happened",
+		QuickRuns: 1500, QuickSecs: 75, ThoroughRuns: 20000, ThoroughSecs: 800,
 		RequiredProbes: []string{"drain.completed", "e2e.claim-succeeded"}})
 
 	c18 := &tcProfile{Prop: "C18", Steps: [2]int{50, 160}, Faults: false, Challenge: 2, Hooks: 15, BadRcpt: 15, Admin: true, Replicas: true, Plans: true}
